@@ -6,6 +6,21 @@ import sys
 import traceback
 
 
+def perturb_globals(idx):
+    """Every case runs under another state of the interpreter-wide settings a user is free to change: Python's and numpy's
+    global random generators, numpy's print options.  The package's results and the text it writes must not depend on them
+    (and a replay of a case must not either: the perturbation is a function of the case index only)."""
+    if os.environ.get("VERIF_PERTURB_GLOBALS", "1") != "1":
+        return
+    import random
+    import numpy as np
+    k = (idx * 2654435761) % 2 ** 32
+    random.seed(k)
+    np.random.seed(k % (2 ** 32 - 1))
+    np.set_printoptions(precision=[8, 2, 17, 4][k % 4], threshold=[1000, 3, 10 ** 6][k % 3], suppress=bool(k & 8),
+                        linewidth=[75, 20, 400][(k >> 4) % 3], floatmode=["maxprec", "fixed", "unique"][(k >> 6) % 3])
+
+
 def main():
     with open(sys.argv[1]) as f:
         spec = json.load(f)
@@ -16,6 +31,7 @@ def main():
     out = open(spec["out"], "a")
     jr = open(spec["journal"], "a")
     for idx, case in spec["items"]:
+        perturb_globals(idx)
         t = os.times()
         jr.write("S %d %.3f\n" % (idx, t[0] + t[1]))
         jr.flush()
